@@ -51,8 +51,7 @@ def decodeCursorFields (filtersOk : Bool) (kvs : List (String × JVal)) : Dec Cu
     let bottom ← decOptBigInt (getField kvs "bottom")
     let paginationID ← decOptBigInt (getField kvs "paginationID")
     let reverse ← decBool (getField kvs "reverse")
-    -- a column cursor must carry its order (the column paginator dereferences it)
-    if order.isNone then throw "invalid cursor: missing order"
+    -- a cursor without `order` is accepted: `Paginate` defaults it to the resource's order
     pure { isOffset := false, column, order, pageSize, offset := 0, bottom, paginationID, reverse }
 
 /-- `UnmarshalCursor` from the decoded JSON tree. -/
